@@ -65,9 +65,16 @@ template <class T> struct Runner {
         { alloctrack::Scope track; if (ow) sl.b1 = std::make_unique<B1>(cap); else sl.b0 = std::make_unique<B0>(cap); }
         sl.m = Model{}; sl.m.cap = cap; sl.m.ow = ow;
     }
+    // capacities: mostly small (every layout is reachable quickly), sometimes large (thresholds such as 16, 32, 64, 86 slots
+    // or 1 KiB of storage only exist there)
+    size_t decode_cap(int b, int c) const {
+        static const size_t big[12] = {16, 17, 24, 31, 32, 33, 40, 64, 65, 86, 100, 130};
+        if ((c & 12) == 12) return big[(unsigned)b % 12];
+        return 1 + (size_t)((unsigned)b % (unsigned)maxCap);
+    }
     void ensure(Slot &sl, const Op &o) {
         if (sl.used()) return;
-        construct(sl, 1 + (size_t)((o.b * 7 + o.c) % maxCap), (o.c >> 1) & 1);
+        construct(sl, decode_cap(o.b * 7 + o.c, o.c), (o.c >> 1) & 1);
         label("implicit_construct");
     }
 
@@ -166,7 +173,7 @@ template <class T> struct Runner {
             switch (o.k) {
             case CONSTRUCT:
                 if (sl.used()) { done = false; break; }
-                construct(sl, 1 + (size_t)(o.b % maxCap), o.c & 1);
+                construct(sl, decode_cap(o.b, o.c), o.c & 1);
                 break;
             case CONSTRUCT_IL: {
                 if (sl.used()) { done = false; break; }
@@ -272,7 +279,12 @@ template <class T> struct Runner {
                 ensure(sl, o);
                 Model &m = sl.m;
                 if (m.unspecified) { done = false; break; }
-                size_t nc = 1 + (size_t)(o.b % maxResize);
+                size_t nc;
+                switch ((unsigned)o.c & 3) {
+                case 2: { long d = (long)m.cap + ((long)((unsigned)o.b % 9) - 4); nc = d < 1 ? 1 : (size_t)d; label("resize_near_capacity"); break; }   // slight shrink / growth
+                case 3: nc = decode_cap(o.b, 12) + ((unsigned)o.b % 3 == 0 ? m.cap : 0); break;                                                   // a large target
+                default: nc = 1 + (size_t)((unsigned)o.b % (unsigned)maxResize); break;
+                }
                 bool cut = nc < m.v.size();
                 if (nc != m.cap) {
                     nt_layout_op(m, "resize_on_layout");
@@ -281,6 +293,7 @@ template <class T> struct Runner {
                     if (cut) label("shrink_cut"); else if (nc < m.cap) label("shrink_nocut"); else label("grow");
                     if (m.v.empty()) label("resize_empty");
                     if (m.v.size() == m.cap) label("resize_full");
+                    if (m.cap >= 16) label("resize_capacity_16_or_more"); if (m.cap >= 64) label("resize_capacity_64_or_more");
                 }
                 call(sl, [&](auto &b) { b.resize(nc); return 0; });
                 m_resize(m, nc);
